@@ -65,12 +65,12 @@ def spell(rng, v, ws=True, vprefix=True):
 
 
 SMALL = [0, 0, 1, 1, 2, 3, 10]
-BIG = [2 ** 70, 10 ** 25 + 7, 4294967296, 99999999999999999999]
+BIG = [2 ** 70, 10 ** 25 + 7, 4294967296, 99999999999999999999, 2 ** 63 - 1, 2 ** 63, 2 ** 64, 2 ** 31 - 1, 2 ** 31, 2 ** 32 - 1, 2 ** 64 - 1, 2 ** 63 + 1]
 LOCAL_SEGS = [0, 1, 2, 10, "a", "b", "abc", "1a", "a1", "ubuntu", "z", "00a"]
 
 
 def small(rng):
-    return rng.choice(SMALL) if rng.random() < 0.97 else rng.choice(BIG)
+    return rng.choice(SMALL) if rng.random() < 0.94 else rng.choice(BIG)
 
 
 def rand_v(rng, local_p=0.3):
